@@ -48,6 +48,16 @@ class X86PrologueEpilogueInsertion(ModulePass):
         if not used_callee_preserved_registers:
             return
 
+        # The pushes of the prologue move the stack pointer: the loads of the
+        # stack-carried arguments, whose offsets are relative to the stack pointer on
+        # function entry, have to skip the saved registers.
+        saved_bytes = 8 * len(used_callee_preserved_registers)
+        for op in func.walk():
+            if isinstance(op, x86.DM_MovOp) and op.memory.type == RSP:
+                op.memory_offset = builtin.IntegerAttr(
+                    op.memory_offset.value.data + saved_bytes, op.memory_offset.type
+                )
+
         builder = Builder(InsertPoint.at_start(func.body.blocks[0]))
         sp_register = builder.insert(x86.GetRegisterOp(RSP))
 
